@@ -42,6 +42,8 @@ def classify(res, exp):
     if res.get("timeout"):
         return ("timeout", res["phase"])
     faulted = "Program fault" in both or "Bug:" in both or (res["rc"] is not None and res["rc"] < 0)
+    if exp["status"] == "halt" and not ("Program fault" in both or "Bug:" in both) and res["phase"] in ("interp", "run"):
+        faulted = False       # a halted executable may end through abort(): the exit class is what counts
     if faulted and res["phase"] != "link":
         sig = "Program fault" if "Program fault" in both else ("Bug" if "Bug:" in both else "signal %d" % -res["rc"])
         return ("fault", "%s in %s" % (sig, res["phase"]))
@@ -52,27 +54,15 @@ def classify(res, exp):
         return ("compile-reject", first_error(both) or "rc=%s" % res["rc"])
     if res["phase"] == "link":
         return ("link-fail", (err or out).strip().split("\n")[0][:80])
-    # the interpreter writes its own diagnostics to stdout after the program's output
+    # the interpreter lists its call stack on stdout when a program halts: a diagnostic, not program output
     got_out = out
     if res["phase"] == "interp" and not got_ok:
-        got_out = strip_interp_diagnostics(out)
+        got_out = re.sub(r"^(#\d+ \S+ in <[^>]*> at unit \[[^\]]*\]|\.\.\.)\n", "", out, flags=re.M)
     if got_out != exp["out"]:
         return ("wrong-output", "")
     if want_ok != got_ok:
         return ("exit-status", "expected %s got rc=%s" % (exp["status"], res["rc"]))
     return None
-
-
-def strip_interp_diagnostics(out):
-    i = out.find("#1 (")
-    if i >= 0:
-        j = out.rfind("\n", 0, i)
-        # diagnostics start on the line holding '#1 (' -- they may be glued to the program's last unterminated line
-        k = out.rfind("Program fault", 0, i)
-        cut = k if k >= 0 and k > j else (j + 1 if j >= 0 else 0)
-        # 'Unhandled Exception' / 'Halt' lines precede '#1 (Error)' on the same line group
-        return out[:cut]
-    return out
 
 
 def shape_flags(prog):
@@ -115,6 +105,8 @@ def shape_flags(prog):
         walk(f, False, False, False)
     for f in prog["funs"]:
         walk(f["body"], False, False, True)
+        if f.get("fuel"):
+            flags.add("recursive-function")
     return sorted(flags)
 
 
@@ -163,7 +155,7 @@ def replay(chk, build, fam, routes, workdir, prop=None, reduce_budget=0):
         st["bad"] += 1
         nbad += 1
         kind, sig = c
-        key = {"kind": kind, "sig": sig, "shapes": shape_flags(p), "route": route}
+        key = {"kind": kind, "sig": sig, "shapes": shape_flags(p), "route": route, "q": q}
         detail = {"program_id": p["id"], "route": label, "kind": kind, "sig": sig,
                   "expected_out": e["out"][:4000], "expected_status": e["status"],
                   "got_out": r["out"][:4000], "got_err": r["err"][:2000], "rc": r["rc"], "phase": r["phase"],
